@@ -51,7 +51,8 @@ CLAIMS = {
                  "the sum over component grids and areas of coefficient*component result, and the same to the container total / the area values; Integration.evaluate_area moves area value, container total and combined result by the same coefficient*component-integral; process_removed_objects "
                  "subtracts each removed area exactly once; RefinementContainer.set_value/set_evaluations keep total == sum over objects (ghost Sum + induction lemma). "
                  "dimension-wise / standard strategies: Integration.calculate_operation_dimension_wise adds coefficient * (quadrature of the grid set to exactly the handed-in point sets) to the combined result and the container total, "
-                 "evaluate_levelvec adds coefficient * component integral over the whole domain. "
+                 "evaluate_levelvec adds coefficient * component integral over the whole domain; StandardCombi.get_points_and_weights (schemes of 1-3 component grids, any number of points): "
+                 "the exposed rule is, in scheme order, every component grid's current points with its weights times the grid's coefficient, each component rule requested once in this call. "
                  "BOUNDED: at every stop of every strategy result == sum coeff*component result recomputed independently, == from-scratch evaluation, unchanged by reevaluate_at_end."),
     "C06": mixed("PROVED: splitting an interval yields two children tiling it at an inner point with shared-point level max+1, inherited outer levels, coarsening max(c-1,0)>=0, "
                  "receiver unchanged, never raises; the selection kernel returns the FIRST object at/after the cursor whose benefit reaches the tolerance and advances the cursor "
